@@ -12,14 +12,24 @@ type pollQueue struct {
 	packets []*parser.Packet
 	ready   chan struct{}
 	mu      sync.Mutex
+
+	// Closed when the transport is discarded. From then on, `poll` doesn't wait.
+	discarded   chan struct{}
+	discardOnce sync.Once
 }
 
 func newPollQueue() *pollQueue {
 	return &pollQueue{
 		// Buffered, so that a signal sent between a consumer's emptiness
 		// check and its wait is not lost.
-		ready: make(chan struct{}, 1),
+		ready:     make(chan struct{}, 1),
+		discarded: make(chan struct{}),
 	}
+}
+
+// discard releases the pending poll (if any), and makes subsequent polls return immediately.
+func (pq *pollQueue) discard() {
+	pq.discardOnce.Do(func() { close(pq.discarded) })
 }
 
 // poll for packets. If we already have a packet, this function will immediately return.
@@ -40,6 +50,8 @@ func (pq *pollQueue) poll(pollTimeout time.Duration) []*parser.Packet {
 			if len(packets) > 0 {
 				return packets
 			}
+		case <-pq.discarded:
+			return pq.get()
 		case <-timeout:
 			return pq.get()
 		}
